@@ -661,6 +661,139 @@ def judge_hashseed(chk: Check, cases: list, jobs: list, results: list):
                         break
 
 
+# ------------------------------------------------------------------ grouping of near-equal constant names (modelled: Model/OrchConsts.v)
+HEADER_C = "From TL Require Import Lib.Base Model.OrchConsts.\n"
+CG_FILES = ["a.py", "b.py", "pkg/c.py", "pkg/d.py", "lib/p.py", "web/f.ts"]
+
+
+def constgroup_cases(seed: int, n: int) -> list:
+    """constant definitions (file, name, line) whose names come from 1-3 random walks of small edits (equal names, near-equal
+    names, chains whose ends are not near, word permutations, antonym swaps), and several orders in which they reach the rule:
+    every definition first once, the reverse, random ones; all orders when there are at most 4 definitions"""
+    import itertools
+    out = []
+    for i in range(n):
+        r = rng_for(seed, PROP, "cg", i)
+        names = []
+        for _ in range(r.choice([1, 1, 2, 3])):
+            for nm in oc.name_walk(r, r.choice(oc.CONST_BASES), r.randint(1, 5)):
+                if nm not in names:
+                    names.append(nm)
+        names = names[:8]
+        r.shuffle(names)
+        sites = [[r.choice(CG_FILES), nm, k + 2] for k, nm in enumerate(names)]
+        for _ in range(r.choice([0, 0, 1, 2])):          # the same name again in another file (an exact duplicate)
+            sites.append([r.choice(CG_FILES), r.choice(names), len(sites) + 2])
+        idx = list(range(len(sites)))
+        if len(sites) <= 4:
+            orders = [list(pm) for pm in itertools.permutations(idx)]
+        else:
+            orders = [idx, idx[::-1]]
+            for k in idx:
+                rest = [j for j in idx if j != k]
+                r.shuffle(rest)
+                orders.append([k] + rest)
+            orders = orders[:10]
+        out.append({"i": i, "sites": sites, "orders": orders})
+    return out
+
+
+def run_constgroup_case(case: dict) -> dict:
+    res = {"error": None, "names": [], "pairs": [], "asym": [], "runs": []}
+    try:
+        ensure_repo_on_path()
+        from src.linters.dry.constant import ConstantInfo
+        from src.linters.dry import constant_matcher as cm
+        names = sorted({s_[1] for s_ in case["sites"]})
+        ix = {nm: k for k, nm in enumerate(names)}
+        res["names"] = names
+        for a in names:
+            for b in names:
+                if a < b:
+                    ab, ba = bool(cm._is_fuzzy_match(a, b)), bool(cm._is_fuzzy_match(b, a))
+                    if ab != ba:
+                        res["asym"].append([a, b])
+                    if ab or ba:
+                        res["pairs"].append([ix[a], ix[b]])
+        for order in case["orders"]:
+            consts = [(Path(case["sites"][k][0]), ConstantInfo(name=case["sites"][k][1], line_number=case["sites"][k][2], value="1")) for k in order]
+            groups = cm.find_constant_groups(consts)
+            first = []
+            for k in order:
+                if ix[case["sites"][k][1]] not in first:
+                    first.append(ix[case["sites"][k][1]])
+            impl = []
+            for g in groups:
+                ms = []
+                for loc in g.locations:
+                    if ix[loc.name] not in ms:
+                        ms.append(ix[loc.name])
+                impl.append([ix[g.canonical_name], ms, bool(g.is_fuzzy_match), sorted(g.all_names), g.file_count, len(g.locations)])
+            res["runs"].append({"names_in_order": first, "groups": impl})
+    except Exception as e:  # noqa: BLE001
+        import traceback
+        res["error"] = f"{type(e).__name__}: {e}\n{traceback.format_exc()[-600:]}"
+    return res
+
+
+def phase_constgroups(ccases, cres, wd: Path, th=None):
+    lines, owners = [], []
+    for ci, (case, res) in enumerate(zip(ccases, cres)):
+        if res["error"]:
+            continue
+        tbl = "[" + "; ".join(f"({a}, {b})" for a, b in res["pairs"]) + "]"
+        for oi, run_ in enumerate(res["runs"]):
+            impl = "[" + "; ".join(f"({g[0]}, {oc.coq_nat_list(g[1])})" for g in run_["groups"]) + "]"
+            fz = "[" + "; ".join("true" if g[2] else "false" for g in run_["groups"]) + "]"
+            lines.append(f"Eval vm_compute in (judge_consts {tbl} {oc.coq_nat_list(run_['names_in_order'])} {impl} {fz}).")
+            owners.append((ci, oi))
+    if not lines:
+        return {}
+    shards = ["\n".join(lines[k:k + 60]) for k in range(0, len(lines), 60)]
+    outs = oc.eval_shards(th, wd / "cg", HEADER_C, shards)
+    flat = [x for o in outs for x in o]
+    if len(flat) != len(lines):
+        raise RuntimeError(f"expected {len(lines)} constant-group verdicts, got {len(flat)}")
+    return dict(zip(owners, flat))
+
+
+def judge_constgroups(chk: Check, ccases, cres, verdicts):
+    for ci, (case, res) in enumerate(zip(ccases, cres)):
+        payload = {"constgroup_case": case}
+        if res["error"]:
+            chk.broken.append("Corr:the constant-grouping stream cannot call find_constant_groups / _is_fuzzy_match: " + res["error"][:300])
+            chk.violation({"reason": "the constant-grouping functions could not be run: " + res["error"][:300], "case": payload})
+            continue
+        sizes = sorted((len(g[1]) for g in res["runs"][0]["groups"]), reverse=True)
+        chk.count(["cg", case["sites"], case["orders"]], bool(sizes) and sizes[0] >= 2)
+        chk.dist("constgroups:largest_group_names:%d" % min(sizes[0] if sizes else 0, 5))
+        chk.dist("constgroups:orders", len(res["runs"]))
+        if res["asym"]:
+            chk.violation({"reason": "the name-match predicate is not symmetric (hypothesis of C08_constant_grouping_order_independent): " + str(res["asym"][:3]), "case": payload})
+            continue
+        part0 = sorted(sorted(g[1]) for g in res["runs"][0]["groups"])
+        obs0 = sorted((sorted(g[1]), g[2], g[3], g[4], g[5]) for g in res["runs"][0]["groups"])
+        for oi, run_ in enumerate(res["runs"]):
+            chk.traces_validated += 1
+            part = sorted(sorted(g[1]) for g in run_["groups"])
+            obs = sorted((sorted(g[1]), g[2], g[3], g[4], g[5]) for g in run_["groups"])
+            info = {"names": res["names"], "order_a": case["orders"][0], "order_b": case["orders"][oi],
+                    "groups_a": res["runs"][0]["groups"], "groups_b": run_["groups"], "case": payload}
+            if part != part0 or obs != obs0:
+                chk.violation({"reason": "the groups of near-equal constants (members / fuzzy flag / names / file count) depend on the order in which the definitions reach the rule", **info})
+                break
+            ver = verdicts.get((ci, oi))
+            if ver is None:
+                continue
+            bits = [bool(b) for b in ver]
+            if not bits[2]:
+                chk.broken.append("Model:the modelled partition is not the set of connected components on a generated input (contradicts C08_constant_groups_are_match_components)")
+            if not (bits[0] and bits[1]):
+                chk.violation({"reason": "find_constant_groups does not return the groups of the model (Model/OrchConsts.v: roots, group order, member order, fuzzy flags)",
+                               "groups_equal": bits[0], "fuzzy_flags_equal": bits[1], **info})
+                break
+
+
 # ------------------------------------------------------------------ suppression comments changed between runs (validated, not modelled)
 DIR_KEY = "st_ignore_content_cache_stale"
 DIRECTIVES = ["# thailint: ignore-file[stringly-typed]\n", "# thailint: ignore-file\n", "# thailint: ignore-file[dry]\n"]
@@ -784,13 +917,21 @@ def run(tier: str, seed: int, replay: str | None = None) -> int:
                 "on one long-lived Linter, each lint call repeated on a Linter built as in a fresh process; per-file tables are measured on "
                 "fresh single-file runs, so a rule that carries state from one file to the next is reported; a history is non-trivial when some lint call follows "
                 "an earlier lint call and reports at least one cross-file finding on either object; distinct = distinct (project, history); "
+                "projects carry cross-file plants (for every cross-file rule a finding group with >= 3 participating files and >= 6 sites: families of "
+                "equal / near-equal constant names built by random walks of small edits, call sites of one function with string literals, scattered "
+                "comparisons, membership tests, duplicate bodies) and some histories lint the same file list in several orders; "
+                "plus (stream hashseed_api) planted projects linted through the library API in separate interpreter processes under several "
+                "PYTHONHASHSEED values (directory walk and an explicit file list in a shuffled order; the multisets of violations including messages must "
+                "be equal); (stream constgroups) families of constant names handed to find_constant_groups in up to 24 orders, compared with the Coq model "
+                "of the grouping and with one another (non-trivial: some group has two names); "
                 "plus CLI runs under several PYTHONHASHSEED values, with permuted path arguments, and file-system snapshots around "
                 "every linter command (sequential/parallel, both DRY storage modes)")
     chk.trusted_base += [
         "rule behaviour is a PARAMETER of the model: per-file results per file version and cross-file reports per evidence list are measured from the implementation (fresh objects) and handed to the model as tables; that per-file rules are functions of (path, content, config) is validated by the correspondence, not proved",
         "order independence is proved under the hypothesis that the duplicate-code and stringly-typed reports are permutation-invariant in their evidence (SQL ORDER BY in the source, text checked by the generated layer); the hypothesis is validated on every run (specification measured on sorted evidence, implementation in processing order)",
         "freedom from side effects on the project tree / TMPDIR / HOME is a runtime observation (snapshots around every in-process call and CLI run), not a theorem; the model's file-system component being untouched by lint operations is proved",
-        "independence of PYTHONHASHSEED is observed on CLI runs, not proved (the model has no hash values)",
+        "independence of PYTHONHASHSEED is observed, not proved (the model has no hash values): separate interpreter processes under several seeds (library API on planted projects, CLI runs of dry / stringly-typed) must return equal multisets of violations",
+        "the name-match predicate of the duplicate-constant grouping (_is_fuzzy_match: word sets, antonym pairs, Levenshtein distance) is a parameter of Model/OrchConsts.v: measured per generated pair, its symmetry (hypothesis of the grouping theorems) is checked on every pair; the union-find is modelled by the table name -> root that find() returns (path compression never changes a root)",
         "os.walk order is an oracle: each directory call carries the listing observed at that moment",
         "suppression comments: generated Python files carry `# dry: ignore-block` / `# dry: ignore-next` comments, whose per-run lifetime in DRYRule is modelled (rows that outlive a run lose their ranges: measured with the comments neutralised); `thailint:` directives and the caches behind them (stringly-typed IgnoreChecker._file_content_cache, has_file_ignore reading the disk) are outside the model and absent from generated files",
         "configuration is read when an object is built: histories change .thailintignore only right before building a new Linter (hist_synced, a hypothesis of the theorems); histories also change .thailint.yaml (other file-placement rules or none, other thresholds / language blocks) right before building a new Linter in the same process: to the model this is a re-versioning of every file (a content id stands for (text, configuration read at construction)) followed by NewLinter, so rule behaviour stays a function of (path, version); a 'fresh object' is one built in a fresh process, approximated in-process by dropping the ignore-parser singleton (put back for the object under test) and by running baseline and measurement objects on a copy of the project under a directory never used before (so that tables keyed by project root or path cannot carry anything over); the process works in its project root (with another working directory the rule constructors re-key the singleton and the stale-parser defect is masked)",
@@ -808,10 +949,13 @@ def run(tier: str, seed: int, replay: str | None = None) -> int:
     n = min(n, int(os.environ.get("VERIF_CASES_CAP", n)))   # self-test runs on mutated copies use a smaller budget
     max_ops = 12 if tier == "quick" else 16
     hcases = hashseed_cases(seed, 12 if tier == "quick" else 200)
+    ccases = constgroup_cases(seed, (60 if tier == "quick" else 600) * scale)
     if replay:
-        hcases = []
+        hcases, ccases = [], []
         rc = json.loads(Path(replay).read_text())["violation"].get("case", {})
-        if "hashseed_case" in rc:
+        if "constgroup_case" in rc:
+            cases, cjobs, dcases, ccases = [], [], [], [rc["constgroup_case"]]
+        elif "hashseed_case" in rc:
             cases, cjobs, dcases, hcases = [], [], [], [rc["hashseed_case"]]
         elif "directive_case" in rc:
             cases, cjobs, dcases = [], [], [rc["directive_case"]]
@@ -836,6 +980,8 @@ def run(tier: str, seed: int, replay: str | None = None) -> int:
     hjobs = hashseed_jobs(hcases, tier)
     hres = pool_map(hashseed_job, hjobs, procs=oc.PROCS, chunks=1) if hjobs else []
     phases["hashseed_api_runs"] = round(_t.time() - t1, 1)
+    cres = [run_constgroup_case(c) for c in ccases]
+    cverdicts = {}
     ok_idx = [i for i, im in enumerate(impls) if not im["error"]]
     for i, im in enumerate(impls):
         if im["error"]:
@@ -857,6 +1003,9 @@ def run(tier: str, seed: int, replay: str | None = None) -> int:
             vs = phase_judge(sub_c, sub_i, queries, measured, wd, th=th)
             phases["coq_judge"] = round(_t.time() - t1, 1)
             verdicts = dict(zip(ok_idx, vs))
+            t1 = _t.time()
+            cverdicts = phase_constgroups(ccases, cres, wd, th=th)
+            phases["coq_constgroups"] = round(_t.time() - t1, 1)
             unmeasurable = sum(1 for ms in measured for m in ms if isinstance(m, dict))
             if unmeasurable:
                 chk.notes.append(f"{unmeasurable} report queries could not be measured on fresh rule objects")
@@ -946,6 +1095,7 @@ def run(tier: str, seed: int, replay: str | None = None) -> int:
         chk.count(["directive", dc["files"], dc["init"], dc["steps"]], not dr["error"] and any(r_["used"] for r_ in dr["runs"]))
         chk.dist("directive_scenarios")
         judge_directive(chk, dc, dr)
+    judge_constgroups(chk, ccases, cres, cverdicts)
     judge_hashseed(chk, hcases, hjobs, hres)
     for obs in cli_obs:
         chk.count(["cli", obs["kind"], obs["args"], [r["argv"] for r in obs["runs"]], [r["env"] for r in obs["runs"]]],
